@@ -1,0 +1,9 @@
+//go:build verif
+// +build verif
+
+package iohelper
+
+// Verification hooks (build tag "verif" only): read-only views of unexported state.
+
+// VerifCursor returns the absolute offset at which the next Write will start.
+func (s *SectionWriter) VerifCursor() int64 { return s.off }
